@@ -23,11 +23,11 @@ def extra_builds(tier):
     # vector code reaches Argon2 only through BLAKE2b (H0 and the variable-length hash H'): the tag-length and input-length shards
     # drive every BLAKE2b shape Argon2 produces; the block-filling grid is re-run on the checked-arithmetic build
     def vec(fname, arg):
-        return fname in ("shard_tags", "shard_inputs")
+        return fname in ("shard_tags", "shard_inputs", "shard_h0len")
 
     def chk(fname, arg):
         return fname not in ("shard_big", "shard_wide")
-    return [("relchk", chk), ("avx", vec), ("avx2", vec), ("native", vec)]
+    return [("relchk", chk), ("avx", vec), ("avx2", vec), ("native", vec), ("fe32", vec)]
 
 
 
@@ -73,7 +73,23 @@ def shards(tier):
     sh.append(("shard_setters", None))
     sh += [("shard_builder", ty) for ty in ("d", "i", "id")]
     sh += [("shard_index", i) for i in range(8)]
+    sh += [("shard_h0len", ty) for ty in ("d", "i", "id")]
     return sh
+
+
+def shard_h0len(ty, tier):
+    """every password length 0..=136 (salt 16, no key, no associated data, and once with each of them non-empty): the pre-hash H0 absorbs
+    40 + |P| + |S| + |K| + |X| bytes, so this drives every residue of its length modulo the BLAKE2b block, incl. exact multiples"""
+    ck = core.Checker(PROPERTY_ID)
+    cases = []
+    for n in range(0, 137):
+        for key, aad in ((b"", b""), (KEY, b"")) if n % 8 else ((b"", b""), (KEY, b""), (b"", AAD), (KEY, AAD)):
+            pw = pat(5, 3, n)
+            tag = argon2.argon2(ty, 0x13, 1, 1, 8, pw, SALT, key, aad, 32)
+            cases.append(([prog(ty, 0x13, 1, 1, 8, pw, SALT, key, aad, 32)], [obs_of(tag)], None))
+    ck.run(cases)
+    ck.stats.states = len(cases)
+    return ck.stats
 
 
 def isqrt(n):
